@@ -277,10 +277,9 @@ func runC01(p *core.Prog, r *core.Report, tier string) {
 	if len(innerInserts) == 0 {
 		r.Violate("C01.c", core.FnKey(filterFn)+"|no-mark", p.Pos(filterFn.Pos()), "membership in the attested set is tested but no validator is ever marked: repeated duties are signed again")
 	}
-	muField := core.FieldID{Owner: attestedField.Owner, Name: "attestedMu"}
 	for i, ins := range innerInserts {
 		construct := fmt.Sprintf("%s|mark#%d", core.FnKey(filterFn), i+1)
-		r.Check(held[ins].HasField(muField, true) || held[ins].HasName("attestedMu", true), "C01.c", construct+"|locked", p.Pos(ins.Pos()), "mark made with attestedMu held", "mark made without attestedMu held")
+		r.Check(heldGuard(p, la, held[ins], attestedField, true), "C01.c", construct+"|locked", p.Pos(ins.Pos()), "mark made with attestedMu held", "mark made without attestedMu held")
 		// key is the validator being tested
 		var test *ssa.Lookup
 		for _, lk := range innerLookups {
@@ -292,7 +291,7 @@ func runC01(p *core.Prog, r *core.Report, tier string) {
 			r.Violate("C01.c", construct+"|tested", p.Pos(ins.Pos()), "the validator marked is not the one whose membership was tested")
 			continue
 		}
-		r.Check(held[test].HasName("attestedMu", true), "C01.c", construct+"|test-locked", p.Pos(test.Pos()), "membership test made with attestedMu held", "membership test made without attestedMu held")
+		r.Check(heldGuard(p, la, held[test], attestedField, true), "C01.c", construct+"|test-locked", p.Pos(test.Pos()), "membership test made with attestedMu held", "membership test made without attestedMu held")
 		okv := core.ExtractOf(test, 1)
 		w := core.Unguarded(ds, filterFn, nil, func(in ssa.Instruction) bool { return in == ssa.Instruction(ins) }, func(c core.Cond) int {
 			if okv != nil && c.B != nil && c.B.Val == okv {
@@ -446,7 +445,7 @@ func runC01(p *core.Prog, r *core.Report, tier string) {
 						w := core.SubUnguarded(ds, f, sub)
 						r.Check(w == nil, "C01.e", construct+"|guarded-sub", p.Pos(in.Pos()), "the epoch subtraction is guarded", "the epoch subtraction can wrap (no guard epoch > c-1)", p.WitnessText(w)...)
 					}
-					r.Check(la.HeldAt(f)[in].HasName("attestedMu", true), "C01.e", construct+"|locked", p.Pos(in.Pos()), "delete under attestedMu", "delete without attestedMu")
+					r.Check(heldGuard(p, la, la.HeldAt(f)[in], attestedField, true), "C01.e", construct+"|locked", p.Pos(in.Pos()), "delete under attestedMu", "delete without attestedMu")
 					return
 				}
 				if lk, ok := m.(*ssa.Lookup); ok {
